@@ -387,7 +387,8 @@ struct CertSpec {
 	int sig_hash = 4;
 	int tbs_sig_kind = 0;            // 0: follows the signer key; else force KK_RSA / KK_EC in the algorithm identifiers
 	Bytes sig_raw;                   // non-empty: literal signature bytes
-	bool corrupt_sig = false;
+	int corrupt_sig = 0;             // 0 genuine; 1 one bit flipped; RSA signers also: 2 / 3 the *cleartext* padded block one byte longer / shorter
+	                                 // than the modulus in place of the signature, 4 last byte dropped, 5 a zero byte prepended
 };
 
 struct BuiltCert {
@@ -459,7 +460,22 @@ inline BuiltCert build(const CertSpec &s, const KeyPool &pool)
 		sig = sign(signer, s.sig_hash, tbsb);
 		if (sig.empty()) sig = Bytes(8, 0x42);   // key too small for the digest: placeholder, cannot verify
 	}
-	if (s.corrupt_sig && !sig.empty()) sig[sig.size() / 2] ^= 0x20;
+	if (s.corrupt_sig >= 2 && signer.kind == KK_RSA && sig.size() > 60 && s.sig_raw.empty()) {
+		if (s.corrupt_sig == 2 || s.corrupt_sig == 3) {
+			// 00 01 FF..FF 00 DigestInfo, recovered with the public key, then stretched / shrunk by one FF byte
+			BN_CTX *c = BN_CTX_new();
+			BIGNUM *n = BN_bin2bn(signer.n.data(), (int)signer.n.size(), nullptr), *e = BN_bin2bn(signer.e.data(), (int)signer.e.size(), nullptr), *x = BN_bin2bn(sig.data(), (int)sig.size(), nullptr), *y = BN_new();
+			BN_mod_exp(y, x, e, n, c);
+			Bytes em(sig.size(), 0);
+			BN_bn2binpad(y, em.data(), (int)em.size());
+			BN_free(n); BN_free(e); BN_free(x); BN_free(y); BN_CTX_free(c);
+			if (em.size() > 12 && em[0] == 0 && em[1] == 1 && em[2] == 0xFF) {
+				if (s.corrupt_sig == 2) em.insert(em.begin() + 2, 0xFF); else em.erase(em.begin() + 2);
+				sig = em;
+			} else sig[sig.size() / 2] ^= 0x20;
+		} else if (s.corrupt_sig == 4) sig.pop_back();
+		else sig.insert(sig.begin(), 0);
+	} else if (s.corrupt_sig && !sig.empty()) sig[sig.size() / 2] ^= 0x20;
 	BuiltCert bc;
 	Bytes body = tbsb;
 	cat(body, alg);
